@@ -42,7 +42,7 @@ CATEGORIES = {
 STRATEGIES = ['default', 'lazy', 'prefetch', 'nplus1_0', 'nplus1_none']
 
 
-def cfg_for(shape, max_level, aids=(1, 2), bids=(1, 2), vals=(1, 2), props=True, init='InitSeeded'):
+def cfg_for(shape, max_level, aids=(1, 2), bids=(1, 2), vals=(1, 2), props=True, init='InitSeeded', reads=True):
     rel, breq, casc = SHAPES[shape]
     lines = ['INIT %s' % init, 'NEXT Next',
              'CONSTANTS',
@@ -53,6 +53,7 @@ def cfg_for(shape, max_level, aids=(1, 2), bids=(1, 2), vals=(1, 2), props=True,
              ' BReq = %s' % ('TRUE' if breq else 'FALSE'),
              ' Casc = %s' % ('TRUE' if casc else 'FALSE'),
              ' MaxLevel = %d' % max_level,
+             ' WithReads = %s' % ('TRUE' if reads else 'FALSE'),
              'CONSTRAINT Bounded', 'CHECK_DEADLOCK FALSE']
     if props:
         lines += ['INVARIANT TypeOK', 'INVARIANT CommittedWellFormed', 'INVARIANT ViewWellFormed',
@@ -739,6 +740,9 @@ class Driver:
         self.g = graph
         self.rng = random.Random(seed)
         self.world = world or World(shape, ctx.scratch.path('db', '%s-%s.sqlite' % (shape, strategy)), strategy)
+        self.seen_triples = set()
+        self.seen_triples_list = ()
+        self.hist = []
         self.after_call = None       # callback(kind) after every API call / projection (used by the hook traces, C33)
         self.on_behaviour = None     # callback('begin' | 'end', trace)
         self.stats = {'behaviours': 0, 'steps': 0, 'commits_compared': 0, 'projections': 0, 'failures_checked': 0,
@@ -780,17 +784,9 @@ class Driver:
         return {k: {u: acts[k] for u, acts in per} for k in (common or ())}
 
     def can_project(self, belief, acts=None):
-        """Projection runs queries (hence an implicit flush): only where, in every state of the belief, the
-        session is open and a SelAll cannot fail."""
-        acts = acts if acts is not None else self.actions(belief)
-        sel = [k for k in acts if k[0] == 'SelAll']
-        if not sel:
-            return False
-        for k in sel:
-            for u, vs in acts[k].items():
-                if any(self.g.nodes[v]['ev']['out'] != 'ok' for v in vs):
-                    return False
-        return True
+        """Projection and free reads run queries (hence an implicit flush): only where, in every state of the belief,
+        the session is open and no read can fail (view.quiet: not Doomed, not Transient)."""
+        return all(self.g.nodes[u]['view']['quiet'] for u in belief)
 
     def choose(self, acts, focus, last_kind, rng):
         """Weighted choice of the next action: prefer transitions not replayed yet, actions on the behaviour's
@@ -833,8 +829,17 @@ class Driver:
                     w *= 2.5
             if any((u, v) not in g.visited for u, vs in acts[k].items() for v in vs):
                 w *= 2.0
+            # novelty of the sequence of call *kinds* (name + entity): triples not replayed yet are preferred, so
+            # that rare orders (modify b, then create a, then point b to a, then commit) get their turn
+            t = (op, e)
+            if self.hist[-2:] + [t] not in self.seen_triples_list and tuple(self.hist[-2:] + [t]) not in self.seen_triples:
+                w *= 4.0
             weights.append(w)
-        return rng.choices(keys, weights=weights, k=1)[0]
+        key = rng.choices(keys, weights=weights, k=1)[0]
+        t = (key[0], key[1])
+        self.seen_triples.add(tuple(self.hist[-2:] + [t]))
+        self.hist.append(t)
+        return key
 
     def free_reads(self, ad, belief, key, when):
         """Ask the reads that concern the objects of call `key` without leaving the specification state: the
@@ -905,9 +910,16 @@ class Driver:
         vals = [self.g.nodes[u][var] for u in belief]
         return vals[0] if all(v == vals[0] for v in vals[1:]) else None
 
-    def run_behaviour(self, max_steps):
+    def run_behaviour(self, max_steps, plan=None, init=None, probe=None):
+        """One behaviour. plan: a fixed list of action keys to execute from initial state `init` (systematic
+        enumeration); otherwise a weighted random walk."""
         g, w, rng = self.g, self.world, self.rng
-        u0 = rng.choice(g.inits)
+        self.last_actions = None
+        # probe: 'all' - free reads / projections around every modification (each of them flushes pending changes);
+        #        'end' - none until the end of the behaviour, so that unflushed changes of several calls accumulate
+        if probe is None:
+            probe = 'all' if rng.random() < 0.5 else 'end'
+        u0 = init if init is not None else rng.choice(g.inits)
         w.reset(g.nodes[u0]['db'])
         ad = Adapter(w, rng)
         trace = [{'init': norm_plain(g.nodes[u0]['db']), 'open': g.nodes[u0]['sess'] == 'open'}]
@@ -922,12 +934,22 @@ class Driver:
         # the same objects (the place where cache shortcuts go wrong) are frequent instead of one in 10^4
         focus = (rng.choice((1, 2)), rng.choice((1, 2)))
         last_kind = None
+        last_write = None
+        self.hist = []
         try:
-            for step in range(max_steps):
+            for step in range(max_steps if plan is None else len(plan) + 1):
                 acts = self.actions(belief)
+                if plan is not None and step == len(plan):
+                    self.last_actions = sorted(k for k in acts if k[0] not in READ_OPS)
+                    break
                 if not acts:
                     break
-                key = self.choose(acts, focus, last_kind, rng)
+                if plan is not None:
+                    key = tuple(plan[step])
+                    if key not in acts:
+                        break       # pony took another allowed branch earlier: this plan does not apply
+                else:
+                    key = self.choose(acts, focus, last_kind, rng)
                 last_kind = 'read' if key[0] in READ_OPS else 'control' if key[0] in CONTROL_OPS else 'write'
                 per = acts[key]
                 cands = [(u, v) for u, vs in per.items() for v in vs]
@@ -938,7 +960,7 @@ class Driver:
                     self.stats['projections'] += 1
                 pending = any(g.nodes[u]['pendNew'] or g.nodes[u]['pendDel'] or g.nodes[u]['cur'] != g.nodes[u]['tx'] for u in belief)
                 is_write = key[0] not in READ_OPS and key[0] not in CONTROL_OPS
-                if is_write and rng.random() < 0.6:
+                if is_write and probe == 'all' and rng.random() < 0.6:
                     # prime the caches (counts, loaded collections, query results) before the modification
                     self.stats['free_reads'] = self.stats.get('free_reads', 0) + self.free_reads(ad, belief, key, 'before')
                 out, ret = ad.call(ev0)
@@ -971,7 +993,8 @@ class Driver:
                     self.stats['reads_compared'] += 1
                     if pending:
                         kinds.add('read-after-unflushed-write')
-                if is_write and out == 'ok':
+                last_write = key if is_write and out == 'ok' else last_write
+                if is_write and out == 'ok' and probe == 'all':
                     n = self.free_reads(ad, belief, key, 'after')
                     self.stats['free_reads'] = self.stats.get('free_reads', 0) + n
                     if n:
@@ -979,7 +1002,7 @@ class Driver:
                 if out not in ('ok', 'Integrity'):
                     self.stats['failures_checked'] += 1
                     kinds.add('failing-call')
-                    if cur is not None and self.can_project(belief):
+                    if cur is not None and (probe == 'all' or rng.random() < 0.3) and self.can_project(belief):
                         ad.project(cur, 'after-failure')
                         self.stats['projections'] += 1
                 elif out == 'Integrity':
@@ -999,9 +1022,16 @@ class Driver:
                         raise Mismatch(cat, 'database after %s(%s) is %r, specification says %r' % (key[0], out, got, norm_state(dbv)))
                     if key[0] in ('Commit', 'End') and out == 'ok':
                         kinds.add('commit')
-                elif cur is not None and rng.random() < 0.15 and self.can_project(belief):
+                elif cur is not None and probe == 'all' and rng.random() < 0.15 and self.can_project(belief):
                     ad.project(cur, 'random-point')
                     self.stats['projections'] += 1
+            if probe == 'end' and last_write is not None and w.session is not None:
+                # everything the calls of this behaviour left pending is still unflushed here
+                n = self.free_reads(ad, belief, ('Delete', 'A', 0, 0, 0), 'at the end')     # 'Delete' widens to all live objects
+                self.stats['free_reads'] = self.stats.get('free_reads', 0) + n
+                if n:
+                    kinds.add('read-after-unflushed-write')
+            self.final_check(ad, belief, trace, kinds)
         except Mismatch as m:
             self.found.append((m.category, m.what, list(trace)))
         except MachineryError:
@@ -1017,6 +1047,72 @@ class Driver:
         for k in kinds:
             self.stats['nontrivial'][k] = self.stats['nontrivial'].get(k, 0) + 1
         return trace
+
+    def run_systematic(self, depth, deadline, init):
+        """Every sequence of at most `depth` modifying/control calls from initial state `init` (breadth first, each
+        replayed from a fresh database with all checks, free reads after each modification and the final exit
+        check). Returns (sequences replayed, exhausted?)."""
+        import time as _time
+        levels = {0: [()]}
+        n = 0
+        for d in range(depth + 1):
+            plans = levels.get(d, [])
+            self.rng.shuffle(plans)          # a partial run (time budget) is a uniform sample of the level
+            nxt = levels.setdefault(d + 1, [])
+            for plan in plans:
+                if _time.time() > deadline:
+                    return n, False
+                self._systematic_one(plan, init, depth, nxt)
+                n += 1
+        return n, True
+
+    def _systematic_one(self, plan, init, depth, nxt):
+        if True:
+            if True:
+                self.run_behaviour(0, plan=list(plan), init=init, probe='end')
+                if len(plan) <= 2:
+                    self.run_behaviour(0, plan=list(plan), init=init, probe='all')
+                if len(plan) < depth and self.last_actions:
+                    for k in self.last_actions:
+                        nxt.append(plan + (k,))
+
+    def final_check(self, ad, belief, trace, kinds):
+        """Where the exported graph ends, the outcome of leaving the session is still determined by the last state:
+        in a quiet state (open, not Doomed, not Transient in every state of the belief) a normal exit must commit
+        exactly `cur`; an exit by exception must leave `db`. One more level of C09/C16 checking for free."""
+        w = self.world
+        if w.session is None:
+            return
+        view = self.agreed(belief, 'view')
+        cur, dbv = self.agreed(belief, 'cur'), self.agreed(belief, 'db')
+        if view is None or not view['quiet'] or cur is None or dbv is None:
+            return
+        if self.rng.random() < 0.75:
+            try:
+                ad.do_End({})
+                out = 'ok'
+            except (core.OrmError, core.DBException, AssertionError) as exc:
+                out = family(exc)
+            if self.after_call:
+                self.after_call('End', out)
+            trace.append({'op': 'End', 'e': '-', 'k': 0, 'x': 0, 'y': 0, 'out': out, 'ret': [], 'final': True})
+            if out != 'ok':
+                raise Mismatch('flush', 'End(): pony -> %s although the session\'s view is well formed and nothing conflicts; '
+                                        'the specification requires the commit to succeed' % out)
+            want = norm_state(cur)
+            kinds.add('commit')
+        else:
+            ad.do_EndExc({})
+            if self.after_call:
+                self.after_call('EndExc', 'ok')
+            trace.append({'op': 'EndExc', 'e': '-', 'k': 0, 'x': 0, 'y': 0, 'out': 'ok', 'ret': [], 'final': True})
+            want = norm_state(dbv)
+        got, problems = w.dump()
+        self.stats['commits_compared'] += 1
+        if problems:
+            raise Mismatch('keys' if 'duplicate' in problems[0] else 'delete', 'database after the final %s: %s' % (trace[-1]['op'], '; '.join(problems)))
+        if got != want:
+            raise Mismatch('commit', 'database after the final %s is %r, specification says %r' % (trace[-1]['op'], got, want))
 
     # -- deep behaviours from tlc -simulate -------------------------------------------------------------
     def run_simulated(self, states):
